@@ -15,33 +15,52 @@ TWO32 = 2 ** 32
 
 
 class Quant:
-    """universal hypothesis / goal  forall k in [lo, hi): guard ==> body(k)."""
+    """universal hypothesis / goal  forall k1..kn : guard && range(k) ==> body(k)."""
     def __init__(self, var, lo, hi, fn, text='', guard=None):
-        self.var = var; self.lo = lo; self.hi = hi; self.fn = fn; self.text = text; self.guard = guard
+        self.vars = [var]; self.lo = lo; self.hi = hi
+        self.rangefn = (lambda k, lo=lo, hi=hi: z3.And(lo <= k, k < hi))
+        self.fn = fn; self.text = text; self.guard = guard
         self._pat = None
 
-    def inst(self, k):
-        b = self.fn(k)
-        rng = z3.And(self.lo <= k, k < self.hi)
+    @classmethod
+    def multi(cls, vars_, rangefn, fn, text='', guard=None):
+        q = cls.__new__(cls)
+        q.vars = list(vars_); q.lo = None; q.hi = None; q.rangefn = rangefn; q.fn = fn; q.text = text; q.guard = guard; q._pat = None
+        return q
+
+    @property
+    def var(self): return self.vars[0]
+
+    def inst(self, *ks):
+        b = self.fn(*ks)
+        rng = self.rangefn(*ks)
         if self.guard is not None: rng = z3.And(self.guard, rng)
         return z3.Implies(rng, b)
 
+    def range_cond(self, *ks):
+        rng = self.rangefn(*ks)
+        return z3.And(self.guard, rng) if self.guard is not None else rng
+
     def as_forall(self):
-        k = z3.Int('%s!q%d' % (self.var, id(self) % 100000))
-        return z3.ForAll([k], self.inst(k))
+        ks = [z3.Int('%s!q%d' % (v, id(self) % 100000)) for v in self.vars]
+        return z3.ForAll(ks, self.inst(*ks))
 
     def patterns(self):
-        """offsets c such that the body reads some array at k + c"""
+        """per variable: offsets c such that the body reads some array at k + c"""
         if self._pat is None:
-            k = z3.Int('%s!p' % self.var)
-            b = self.inst(k)
-            offs = set()
-            for idx in index_terms([b]):
-                if contains(idx, k):
-                    d = z3.simplify(idx - k)
-                    if z3.is_int_value(d): offs.add(d.as_long())
-            if not offs: offs.add(0)
-            self._pat = sorted(offs)
+            ks = [z3.Int('%s!p' % v) for v in self.vars]
+            b = self.inst(*ks)
+            pats = []
+            its = index_terms([b])
+            for k in ks:
+                offs = set()
+                for idx in its:
+                    if contains(idx, k):
+                        d = z3.simplify(idx - k)
+                        if z3.is_int_value(d): offs.add(d.as_long())
+                if not offs: offs.add(0)
+                pats.append(sorted(offs))
+            self._pat = pats
         return self._pat
 
 
@@ -137,7 +156,7 @@ def real_relevant(hyps, goal, rounds=8):
     syms = real_syms(goal)
     if not syms: return list(hyps)        # goal `false` (unreachability): every hypothesis matters
     hs = [(h, real_syms(h)) for h in hyps]
-    keep = [False] * len(hs)
+    keep = [not sy for (h, sy) in hs]       # purely integer facts are always kept (cheap, and they carry shapes)
     for _ in range(rounds):
         changed = False
         for i, (h, sy) in enumerate(hs):
@@ -460,26 +479,38 @@ def _check(solver, ms):
     return str(r), time.time() - t0
 
 
-def instantiate(quants, plain, goal, extra_terms=(), rounds=2, cap=400, goal_only=False):
+def instantiate(quants, plain, goal, extra_terms=(), rounds=2, cap=600, goal_only=False):
     insts = []
     done = set(); alive = []
     base = ([] if goal_only else list(plain)) + [goal]
     for rnd in range(rounds):
-        terms = index_terms(base + ([] if goal_only else insts)) + list(extra_terms)
+        terms = list(extra_terms) + index_terms([goal]) + index_terms(base + ([] if goal_only else insts))
         tset = {}
         for t in terms:
-            tset[t.get_id()] = t
+            if t.sort().kind() == z3.Z3_INT_SORT and t.get_id() not in tset: tset[t.get_id()] = t
         new = []
         for q in quants:
-            for t in tset.values():
-                if t.sort().kind() != z3.Z3_INT_SORT: continue
-                for c in q.patterns():
-                    k = z3.simplify(t - c) if c else t
-                    key = (id(q), k.get_id())
-                    if key in done: continue
-                    done.add(key); alive.append(k)
-                    new.append(q.inst(k))
-                    if len(insts) + len(new) > cap: break
+            pats = q.patterns()
+            cands = []
+            for offs in pats:
+                cs = {}
+                for t in tset.values():
+                    for c in offs:
+                        k = z3.simplify(t - c) if c else t
+                        cs[k.get_id()] = k
+                cands.append(list(cs.values()))
+            total = 1
+            for c in cands: total *= max(1, len(c))
+            if total > 400:
+                # too many combinations: keep the candidates closest to the goal (skolems and goal terms first)
+                lim = max(2, int(400 ** (1.0 / len(cands))))
+                cands = [c[:lim] for c in cands]
+            for combo in itertools.product(*cands):
+                key = (id(q),) + tuple(k.get_id() for k in combo)
+                if key in done: continue
+                done.add(key); alive.append(combo)
+                new.append(q.inst(*combo))
+                if len(insts) + len(new) > cap: break
         if not new: break
         insts += new
     return insts
